@@ -4,6 +4,10 @@ bit-level facts relating the `Pte` accessors of the model to the entry format of
 the two `next_table` variants as one function of the architectural bits, and the shape of the
 ghost log of read-only descents.
 
+The ghost log `St.log` is kept newest-first (`St.events = log.reverse` is the chronological order).
+All log clauses here have the form `{ s with log := l.reverse ++ s.log }` with `l` the appended
+events in chronological order; `St.events_append` turns that into `events = s.events ++ l`.
+
 Note for `bv_decide`: state bit-level lemmas over `BitVec 64`, not over the abbreviation `Word`
 (the reflection does not see through the abbreviation in instance arguments).
 -/
@@ -206,15 +210,22 @@ theorem descendK_nil (k : Kind) (s : St) (t : Word) : descendK k s t [] = (.ok t
 theorem descendK_cons (k : Kind) (s : St) (t : Word) (i : Nat) (rest : List Nat) :
     descendK k s t (i :: rest) =
       match ntK k (s.mem t i) with
-      | .error err => (.error err, { s with log := s.log ++ [.rd t i] })
-      | .ok t' => descendK k { s with log := s.log ++ [.rd t i] } t' rest := by
+      | .error err => (.error err, { s with log := .rd t i :: s.log })
+      | .ok t' => descendK k { s with log := .rd t i :: s.log } t' rest := by
   obtain ⟨r⟩ := k; cases r <;> rfl
 
 /-! ### Read-only operations only append `rd` events -/
 
-/-- `s'` is `s` with some read events appended to the ghost log (memory and allocator untouched). -/
+/-- A state whose (newest-first) log is `l.reverse ++ s.log` has the chronological events of `s`
+followed by `l`. -/
+theorem St.events_append (s : St) (l : List Ev) :
+    ({ s with log := l.reverse ++ s.log } : St).events = s.events ++ l := by
+  simp [St.events]
+
+/-- `s'` is `s` with some read events `l` (chronological) appended to the ghost log (memory and
+allocator untouched). -/
 def OnlyReads (s s' : St) : Prop :=
-  ∃ l : List Ev, s' = { s with log := s.log ++ l } ∧ ∀ ev ∈ l, ∃ f i, ev = Ev.rd f i
+  ∃ l : List Ev, s' = { s with log := l.reverse ++ s.log } ∧ ∀ ev ∈ l, ∃ f i, ev = Ev.rd f i
 
 theorem OnlyReads.refl (s : St) : OnlyReads s s :=
   ⟨[], by cases s; simp, by intro ev h; cases h⟩
@@ -316,10 +327,11 @@ theorem translate_eq_E_aux (k : Kind) (s : St) (p4 : Word) (va : Nat) (e4 e3 e2 
     (he1 : s.mem (tableAddr e2) (va / 2^12 % 512) = e1) :
     translate k s p4 va =
       ((translateE k e4 e3 e2 e1 va).1,
-       { s with log := s.log ++
-          ([Ev.rd p4 (va / 2^39 % 512), .rd (tableAddr e4) (va / 2^30 % 512),
+       { s with log :=
+          (([Ev.rd p4 (va / 2^39 % 512), .rd (tableAddr e4) (va / 2^30 % 512),
             .rd (tableAddr e3) (va / 2^21 % 512),
-            .rd (tableAddr e2) (va / 2^12 % 512)]).take (translateE k e4 e3 e2 e1 va).2 }) := by
+            .rd (tableAddr e2) (va / 2^12 % 512)]).take (translateE k e4 e3 e2 e1 va).2).reverse
+            ++ s.log }) := by
   simp only [translate, St.rd, translate_ntK, translateE]
   rw [he4]
   cases h4 : ntK k e4 with
@@ -349,9 +361,10 @@ theorem translate_eq_E (k : Kind) (s : St) (p4 : Word) (va : Nat) :
       let e2 := s.mem (tableAddr e3) (vaIdx2 va)
       let e1 := s.mem (tableAddr e2) (vaIdx1 va)
       ((translateE k e4 e3 e2 e1 va).1,
-       { s with log := s.log ++
-          ([Ev.rd p4 (vaIdx4 va), .rd (tableAddr e4) (vaIdx3 va), .rd (tableAddr e3) (vaIdx2 va),
-            .rd (tableAddr e2) (vaIdx1 va)]).take (translateE k e4 e3 e2 e1 va).2 }) :=
+       { s with log :=
+          (([Ev.rd p4 (vaIdx4 va), .rd (tableAddr e4) (vaIdx3 va), .rd (tableAddr e3) (vaIdx2 va),
+            .rd (tableAddr e2) (vaIdx1 va)]).take (translateE k e4 e3 e2 e1 va).2).reverse
+            ++ s.log }) :=
   translate_eq_E_aux k s p4 va _ _ _ _ rfl rfl rfl rfl
 
 def leafE (e3 e2 e1 : Word) : Word := if bitPS e3 then e3 else if bitPS e2 then e2 else e1
@@ -460,7 +473,8 @@ theorem descendK_eq (k : Kind) (ps : List Nat) : ∀ (s : St) (t : Word),
       ((match (dE k (entsOf s.mem t ps)).1 with
         | some err => .error err
         | none => .ok (lastTbl s.mem t ps)),
-       { s with log := s.log ++ (readsOf s.mem t ps).take (dE k (entsOf s.mem t ps)).2 }) := by
+       { s with log :=
+          ((readsOf s.mem t ps).take (dE k (entsOf s.mem t ps)).2).reverse ++ s.log }) := by
   induction ps with
   | nil => intro s t; rw [descendK_nil]; cases s; simp [dE, entsOf, lastTbl, readsOf]
   | cons i r ih =>
@@ -489,8 +503,9 @@ theorem translatePage_eq_E (k : Kind) (s : St) (p4 : Word) (ps : List Nat) (li :
     (sz : Nat) :
     translatePage k s p4 ps li huge sz =
       let r := tpE k huge sz (entsOf s.mem p4 ps) (s.mem (lastTbl s.mem p4 ps) li)
-      (r.1, { s with log := s.log ++
-                (readsOf s.mem p4 ps ++ [Ev.rd (lastTbl s.mem p4 ps) li]).take r.2 }) := by
+      (r.1, { s with log :=
+                ((readsOf s.mem p4 ps ++ [Ev.rd (lastTbl s.mem p4 ps) li]).take r.2).reverse
+                  ++ s.log }) := by
   unfold translatePage tpE
   rw [descendK_eq]
   cases h : (dE k (entsOf s.mem p4 ps)).1 with
